@@ -393,6 +393,10 @@ func (b *Broker) RegisterPipeline(def Pipeline, opt ...Option) error {
 		registrationPolicy: opts.withPipelineRegistrationPolicy,
 	}
 
+	// If we're overwriting an existing pipeline, its nodes are no longer
+	// referenced by it.
+	b.releasePipelineNodes(g, def.PipelineID)
+
 	// Store the pipeline and then update the reference count of the nodes in that pipeline.
 	g.roots.Store(def.PipelineID, pipelineReg)
 	for _, id := range def.NodeIDs {
